@@ -452,6 +452,9 @@ class Shelxfile():
             if word == 'AFIX':
                 self.afix = self._assign_card(AFIX(self, spline), line_num)
             elif self.is_atom(line):
+                if self.frag:
+                    # The coordinate lines (name sfac x y z) between FRAG and FEND are not atoms of the structure.
+                    continue
                 # A SHELXL atom:
                 # F9    4    0.395366   0.177026   0.601546  21.00000   0.03231  ( 0.03248 =
                 #            0.03649  -0.00522  -0.01212   0.00157 )
